@@ -15,21 +15,21 @@ def build_replay(fast_check=False):
     key = 'fc' if fast_check else 'plain'
     if key in _replay_bin: return _replay_bin[key]
     crate = os.path.join(VERIF, 'replay')
-    if os.path.realpath(REPO) != '/repo':
-        # checks pointed at another checkout (VERIF_REPO): build a copy of the replay crate against that checkout
-        import shutil
-        alt = os.path.join(CACHE, 'replay-src')
-        shutil.rmtree(alt, ignore_errors=True); shutil.copytree(crate, alt, ignore=shutil.ignore_patterns('target', 'Cargo.lock'))
-        t = open(os.path.join(alt, 'Cargo.toml')).read().replace('path = "/repo"', f'path = "{os.path.realpath(REPO)}"')
-        open(os.path.join(alt, 'Cargo.toml'), 'w').write(t); crate = alt
     lock_src = os.path.join(REPO, 'Cargo.lock')
     target = os.path.join(CACHE, 'replay-target-fc' if fast_check else 'replay-target')
     env = dict(os.environ, RUSTFLAGS='--cfg deno_graph_verif', CARGO_TARGET_DIR=target, CARGO_NET_OFFLINE='true')
     import fcntl
     os.makedirs(CACHE, exist_ok=True)
-    with open(os.path.join(CACHE, f'replay-{key}.lock'), 'w') as lk:
+    with open(os.path.join(CACHE, 'replay-build.lock'), 'w') as lk:
         fcntl.flock(lk, fcntl.LOCK_EX)
         try:
+            if os.path.realpath(REPO) != '/repo':
+                # checks pointed at another checkout (VERIF_REPO): build a copy of the replay crate against that checkout
+                import shutil
+                alt = os.path.join(CACHE, 'replay-src')
+                shutil.rmtree(alt, ignore_errors=True); shutil.copytree(crate, alt, ignore=shutil.ignore_patterns('target', 'Cargo.lock'))
+                t = open(os.path.join(alt, 'Cargo.toml')).read().replace('path = "/repo"', f'path = "{os.path.realpath(REPO)}"')
+                open(os.path.join(alt, 'Cargo.toml'), 'w').write(t); crate = alt
             lock_dst = os.path.join(crate, 'Cargo.lock')
             if not os.path.exists(lock_dst): 
                 import shutil; shutil.copy(lock_src, lock_dst)
